@@ -196,11 +196,22 @@ package http2
 //@   ensures [C13:other-dependencies-accepted] streamID != p.StreamDep ==> err == nil
 //@ -- C09/C05: what the handler sees as Request.Host is the :authority the client addressed (a "host" line only
 //@ -- fills in when there is no :authority); regular fields land in Request.Header under canonical keys
-//@ pure func pseudoVal(f *MetaHeadersFrame, name string) string
-//@ func (*MetaHeadersFrame).PseudoValue :: mh, pseudo -> v
+//@ -- the value of pseudo-header :name is looked up among the LEADING pseudo-header fields only (a regular field
+//@ -- that happens to be called "name" never counts); first match wins
+//@ pure func isPseudoF(hf hpack.HeaderField) bool = len(hf.Name) > 0 && hf.Name[0] == 58
+//@ pure func pvFrom(fs seq[hpack.HeaderField], k int, name string) string = ite(k < 0 || k >= len(fs) || !isPseudoF(fs[k]), "", ite(fs[k].Name[1:] == name, fs[k].Value, pvFrom(fs, k + 1, name)))
+//@ pure func pseudoVal(f *MetaHeadersFrame, name string) string = pvFrom(f.Fields, 0, name)
+//@ func hpack.HeaderField.IsPseudo :: hf -> r
 //@   trusted
 //@   pure
-//@   ensures v == pseudoVal(mh, pseudo)
+//@   ensures r <==> isPseudoF(hf)
+//@ func (*MetaHeadersFrame).PseudoValue :: mh, pseudo -> v
+//@   props C09,C13
+//@   requires mh != nil
+//@   assigns nothing
+//@   ensures [C09:pseudo-header-value-comes-from-the-leading-pseudo-fields-only] v == pseudoVal(mh, pseudo)
+//@   loop 1 invariant -1 <= rangeindex && rangeindex < len(mh.Fields) || (rangeindex == -1 && len(mh.Fields) == 0)
+//@   loop 1 invariant pvFrom(mh.Fields, 0, pseudo) == pvFrom(mh.Fields, rangeindex + 1, pseudo)
 //@ pure func regFields(f *MetaHeadersFrame) seq[hpack.HeaderField]
 //@ func (*MetaHeadersFrame).RegularFields :: mh -> fs
 //@   trusted
